@@ -59,6 +59,11 @@ def run(chk, repo, tier):
     chk.clause('C03-g', 'sub-array offsets reach the transform', 3)
     chk.clause('C03-i', 'the slice cache holds one bounding slice per (segment) mask', 2)
     chk.clause('C03-j', 'resampling treats the segment masks exactly like the global mask', 1)
+    chk.clause('C03-l', 'a masked output window is placed by the bounding box of the mask with the floor(n/2) convention, for '
+                        'segmented and monolithic wavefronts alike', 2)
+    from . import extent_rules as X
+    with chk.guard(['C03-l'], 'propagate._mask_shift'):
+        X.mask_window_identities(chk, repo, 'C03-l')
     from .c17 import mask_rescale_siblings
     mask_rescale_siblings(chk, repo, 'C03-j')
     chk.not_decided += ['numerical equality of segmented and monolithic results']
